@@ -201,7 +201,7 @@ impl ArenaModel {
                 Act::Nop => {}
                 Act::Layout { fallible, size, al } => world.do_layout(fallible, size, al, script, probe),
                 Act::Typed { m, ty } => world.do_typed(m, ty, script, probe),
-                Act::TryWith { fallible, ty, ok, inner, probe: p } => world.do_try_with(fallible, ty, ok, inner, p, script),
+                Act::TryWith { fallible, ty, ok, inner, probe: p, esz } => world.do_try_with(fallible, ty, ok, inner, p, esz, script),
                 Act::Slice { m, el, len, fail_at, inner } => world.do_slice(m, el, len, fail_at, inner, script, probe),
                 Act::Str { fallible, len } => world.do_str(fallible, len, script, probe),
                 Act::Allocate { size, al } => world.do_allocate(size, al, script),
@@ -349,8 +349,8 @@ impl ArenaModel {
                     for ty in [Ty::U8, Ty::U64, Ty::B449, Ty::A64, Ty::Unit] {
                         for ok in [true, false] {
                             for inner in ALL_INNER {
-                                a.push(Act::TryWith { fallible: false, ty, ok, inner, probe: false });
-                                a.push(Act::TryWith { fallible: true, ty, ok, inner, probe: false });
+                                a.push(Act::TryWith { fallible: false, ty, ok, inner, probe: false, esz: 0 });
+                                a.push(Act::TryWith { fallible: true, ty, ok, inner, probe: false, esz: 0 });
                             }
                         }
                     }
@@ -363,10 +363,10 @@ impl ArenaModel {
                     a.push(Act::Slice { m: SM::InitTryFillWith, el: El::U64, len: 3, fail_at: 1, inner: Inner::Nothing });
                     a.push(Act::Slice { m: SM::FillIter, el: El::U16, len: 3, fail_at: NO_FAIL, inner: Inner::Nothing });
                     a.push(Act::Str { fallible: false, len: 7 });
-                    a.push(Act::TryWith { fallible: false, ty: Ty::U64, ok: false, inner: Inner::Nothing, probe: false });
-                    a.push(Act::TryWith { fallible: false, ty: Ty::U64, ok: false, inner: Inner::AllocKeep, probe: false });
-                    a.push(Act::TryWith { fallible: true, ty: Ty::B449, ok: false, inner: Inner::Nothing, probe: false });
-                    a.push(Act::TryWith { fallible: false, ty: Ty::U8, ok: true, inner: Inner::ForceChunk, probe: false });
+                    a.push(Act::TryWith { fallible: false, ty: Ty::U64, ok: false, inner: Inner::Nothing, probe: false, esz: 0 });
+                    a.push(Act::TryWith { fallible: false, ty: Ty::U64, ok: false, inner: Inner::AllocKeep, probe: false, esz: 0 });
+                    a.push(Act::TryWith { fallible: true, ty: Ty::B449, ok: false, inner: Inner::Nothing, probe: false, esz: 0 });
+                    a.push(Act::TryWith { fallible: false, ty: Ty::U8, ok: true, inner: Inner::ForceChunk, probe: false, esz: 0 });
                 }
             }
             Profile::Ledger => {
@@ -374,8 +374,8 @@ impl ArenaModel {
                 lay(&mut a, false, &[cap + 1, 2 << 20], &[0]);
                 a.push(Act::Typed { m: TM::Alloc, ty: Ty::B5000 });
                 a.push(Act::Typed { m: TM::TryAlloc, ty: Ty::A4096 });
-                a.push(Act::TryWith { fallible: false, ty: Ty::B449, ok: false, inner: Inner::Nothing, probe: false });
-                a.push(Act::TryWith { fallible: true, ty: Ty::B449, ok: false, inner: Inner::ForceChunk, probe: false });
+                a.push(Act::TryWith { fallible: false, ty: Ty::B449, ok: false, inner: Inner::Nothing, probe: false, esz: 0 });
+                a.push(Act::TryWith { fallible: true, ty: Ty::B449, ok: false, inner: Inner::ForceChunk, probe: false, esz: 0 });
                 a.push(Act::Slice { m: SM::InitTryFillWith, el: El::U64, len: cap / 8 + 1, fail_at: 0, inner: Inner::Nothing });
                 self.allocator_acts(&mut a, nraw, &raw_sz, cap, false);
                 a.push(Act::Reset { probe: false });
@@ -390,9 +390,9 @@ impl ArenaModel {
                 lay(&mut a, true, &[0, 1, 8, cap, cap + 1, 449, 5000], &[0, 4, 6]);
                 a.push(Act::Typed { m: TM::Alloc, ty: Ty::U64 });
                 a.push(Act::Typed { m: TM::Alloc, ty: Ty::A4096 });
-                a.push(Act::TryWith { fallible: false, ty: Ty::U64, ok: false, inner: Inner::Nothing, probe: false });
-                a.push(Act::TryWith { fallible: false, ty: Ty::B449, ok: false, inner: Inner::Nothing, probe: false });
-                a.push(Act::TryWith { fallible: false, ty: Ty::B449, ok: false, inner: Inner::AllocKeep, probe: false });
+                a.push(Act::TryWith { fallible: false, ty: Ty::U64, ok: false, inner: Inner::Nothing, probe: false, esz: 0 });
+                a.push(Act::TryWith { fallible: false, ty: Ty::B449, ok: false, inner: Inner::Nothing, probe: false, esz: 0 });
+                a.push(Act::TryWith { fallible: false, ty: Ty::B449, ok: false, inner: Inner::AllocKeep, probe: false, esz: 0 });
                 a.push(Act::Slice { m: SM::InitTryFillWith, el: El::U64, len: 3, fail_at: 1, inner: Inner::Nothing });
                 self.allocator_acts(&mut a, nraw, &raw_sz, cap, false);
                 a.push(Act::Reset { probe: false });
@@ -461,8 +461,8 @@ impl ArenaModel {
                     }
                     for ty in [Ty::U64, Ty::B449, Ty::B5000, Ty::A4096] {
                         for f in [true, false] {
-                            a.push(Act::TryWith { fallible: f, ty, ok: true, inner: Inner::Nothing, probe: false });
-                            a.push(Act::TryWith { fallible: f, ty, ok: false, inner: Inner::Nothing, probe: false });
+                            a.push(Act::TryWith { fallible: f, ty, ok: true, inner: Inner::Nothing, probe: false, esz: 0 });
+                            a.push(Act::TryWith { fallible: f, ty, ok: false, inner: Inner::Nothing, probe: false, esz: 0 });
                         }
                     }
                     a.push(Act::Allocate { size: cap + 1, al: 0 });
@@ -494,9 +494,18 @@ impl ArenaModel {
                     for &ty in tys {
                         for f in [true, false] {
                             for inner in ALL_INNER {
-                                a.push(Act::TryWith { fallible: f, ty, ok: false, inner, probe: true });
-                                a.push(Act::TryWith { fallible: f, ty, ok: true, inner, probe: false });
+                                a.push(Act::TryWith { fallible: f, ty, ok: false, inner, probe: true, esz: 0 });
+                                a.push(Act::TryWith { fallible: f, ty, ok: true, inner, probe: false, esz: 0 });
                             }
+                        }
+                    }
+                    // error types much bigger than the value (the reserved Result slot is mostly error)
+                    for (ty, esz) in [(Ty::U8, 1u8), (Ty::U8, 2), (Ty::U64, 1), (Ty::U64, 2), (Ty::Unit, 1), (Ty::U8, 3), (Ty::B449, 2)] {
+                        for f in [true, false] {
+                            for inner in [Inner::Nothing, Inner::AllocKeep] {
+                                a.push(Act::TryWith { fallible: f, ty, ok: false, inner, probe: true, esz });
+                            }
+                            a.push(Act::TryWith { fallible: f, ty, ok: true, inner: Inner::Nothing, probe: false, esz });
                         }
                     }
                     for (el, len) in [(El::U8, 5usize), (El::U64, 3), (El::U8, cap.saturating_sub(30)), (El::U8, cap + 1)] {
@@ -523,9 +532,9 @@ impl ArenaModel {
                     if cap > 16 {
                         lay(&mut a, true, &[cap - 8, cap - 16, cap - 17], &[0]);
                     }
-                    a.push(Act::TryWith { fallible: false, ty: Ty::U64, ok: false, inner: Inner::Nothing, probe: false });
-                    a.push(Act::TryWith { fallible: false, ty: Ty::B449, ok: false, inner: Inner::Nothing, probe: false });
-                    a.push(Act::TryWith { fallible: true, ty: Ty::B449, ok: false, inner: Inner::AllocKeep, probe: false });
+                    a.push(Act::TryWith { fallible: false, ty: Ty::U64, ok: false, inner: Inner::Nothing, probe: false, esz: 0 });
+                    a.push(Act::TryWith { fallible: false, ty: Ty::B449, ok: false, inner: Inner::Nothing, probe: false, esz: 0 });
+                    a.push(Act::TryWith { fallible: true, ty: Ty::B449, ok: false, inner: Inner::AllocKeep, probe: false, esz: 0 });
                     a.push(Act::Slice { m: SM::InitTryFillWith, el: El::U64, len: 3, fail_at: 1, inner: Inner::Nothing });
                     a.push(Act::Reset { probe: false });
                     a.push(Act::SetLimit { some: true, val: held_usable + 448 });
@@ -698,7 +707,7 @@ impl ArenaModel {
                         lay(&mut a, true, &[cap - 16, cap - 40], &[0]);
                     }
                     a.push(Act::Reset { probe: false });
-                    a.push(Act::TryWith { fallible: false, ty: Ty::U64, ok: false, inner: Inner::Nothing, probe: false });
+                    a.push(Act::TryWith { fallible: false, ty: Ty::U64, ok: false, inner: Inner::Nothing, probe: false, esz: 0 });
                     if nraw > 0 {
                         a.push(Act::Dealloc { h: 0 });
                     }
@@ -710,8 +719,8 @@ impl ArenaModel {
                     lay(&mut a, true, &[cap - 1], &[0]);
                 }
                 self.allocator_acts(&mut a, nraw, &raw_sz, cap, false);
-                a.push(Act::TryWith { fallible: false, ty: Ty::U64, ok: false, inner: Inner::Nothing, probe: false });
-                a.push(Act::TryWith { fallible: false, ty: Ty::B449, ok: false, inner: Inner::Nothing, probe: false });
+                a.push(Act::TryWith { fallible: false, ty: Ty::U64, ok: false, inner: Inner::Nothing, probe: false, esz: 0 });
+                a.push(Act::TryWith { fallible: false, ty: Ty::B449, ok: false, inner: Inner::Nothing, probe: false, esz: 0 });
                 a.push(Act::Reset { probe: false });
                 a.push(Act::CapProbe);
             }
